@@ -114,6 +114,8 @@ pub enum EchoReq {
     ColorWild(Vec<u8>),
     /// wildcard remainder of UUIDs
     UuidWild(Vec<[u8; 16]>),
+    /// the flat form type sent as JSON to an endpoint declaring JSON
+    FlatJson(FormSpec, Framing),
 }
 
 impl EchoReq {
@@ -131,6 +133,7 @@ impl EchoReq {
             EchoReq::Page(..) => "page",
             EchoReq::ColorWild(..) => "cwild",
             EchoReq::UuidWild(..) => "uwild",
+            EchoReq::FlatJson(..) => "flatjson",
         }
     }
 }
@@ -304,6 +307,7 @@ pub fn echo_req() -> impl Strategy<Value = EchoReq> {
         1 => (body_bytes(20000), framing()).prop_map(|(b, f)| EchoReq::Raw(b, f)),
         1 => (body_bytes(60000), framing()).prop_map(|(b, f)| EchoReq::Stream(b, f)),
         1 => (query_spec(), proptest::option::of(1u32..5000)).prop_map(|(q, l)| EchoReq::Page(q, l)),
+        1 => (form_spec(), framing()).prop_map(|(j, f)| EchoReq::FlatJson(j, f)),
         1 => prop_oneof![
             proptest::collection::vec(0u8..3, 0..5).prop_map(EchoReq::ColorWild),
             proptest::collection::vec(any::<[u8; 16]>(), 0..4).prop_map(EchoReq::UuidWild),
@@ -487,6 +491,8 @@ pub struct Parts {
     pub body: Option<Vec<u8>>,
     /// DATA frame sizes when the body is sent without a declared length
     pub frames: Option<Vec<usize>>,
+    /// HTTP/2 only: put zero-length DATA frames (legal, RFC 9113 section 6.1) between the others
+    pub empty_frames: bool,
 }
 
 pub struct Wire {
@@ -504,6 +510,7 @@ pub fn finish_request(method: &'static str, target: String, ct: Option<String>, 
         ct: ct.clone(),
         body: body.clone(),
         frames: fr.filter(|f| f.chunked).map(|f| f.chunk_sizes.iter().map(|s| *s as usize).collect()),
+        empty_frames: fr.map(|f| f.chunked && f.ext).unwrap_or(false),
     };
     let mut headers = vec![("x-verif-tag".to_string(), tag.to_string())];
     if let Some(ct) = ct {
@@ -629,6 +636,29 @@ pub fn render(req: &EchoReq, tag: &str, style_seed: u64) -> Wire {
                 op: "ve_form",
             }
         }
+        EchoReq::FlatJson(fs, f) => {
+            let target = format!("/e/flatjson?{}", tagq(&mut st));
+            let mut m = Map::new();
+            m.insert("a".into(), json!(fs.a));
+            m.insert("b".into(), json!(fs.b));
+            m.insert("c".into(), json!(fs.c));
+            m.insert("e".into(), json!(COLORS[fs.e as usize % 3].1));
+            m.insert("big".into(), json!(fs.big));
+            if let Some(o) = &fs.o {
+                m.insert("o".into(), json!(o));
+            }
+            let body = json_text(&Value::Object(m), &mut st).into_bytes();
+            let (bytes, cuts, hp) = finish_request("POST", target.clone(), content_type_variant("application/json", f.ct_variant), Some(body), Some(f), tag);
+            Wire {
+                parts: hp,
+                bytes,
+                cuts,
+                method: "POST",
+                target,
+                expected: json!({"path": null, "query": {"tag": tag}, "body": {"a": fs.a, "b": fs.b, "c": fs.c, "o": fs.o, "e": COLORS[fs.e as usize % 3].1, "big": fs.big}}),
+                op: "ve_flatjson",
+            }
+        }
         EchoReq::Multipart(parts, bstyle, f) => {
             let target = format!("/e/multipart?{}", tagq(&mut st));
             let (ct, body) = multipart(parts, style_seed, &mut st, *bstyle);
@@ -714,7 +744,7 @@ fn needs_encoding(r: &EchoReq) -> bool {
         EchoReq::Query(q) => odd(&q.s) || !q.ch.is_ascii_alphanumeric() || q.u64v == u64::MAX,
         EchoReq::Json(j, f) => odd(&j.text) || f.chunked,
         EchoReq::All(..) => true,
-        EchoReq::Form(fs, f) => odd(&fs.a) || f.chunked,
+        EchoReq::Form(fs, f) | EchoReq::FlatJson(fs, f) => odd(&fs.a) || f.chunked,
         EchoReq::Multipart(_, b, _) => b % 6 != 0,
         EchoReq::Raw(_, f) | EchoReq::Stream(_, f) => f.chunked,
         EchoReq::Page(q, _) => odd(&q.s) || q.opt.as_deref() == Some(""),
@@ -902,6 +932,9 @@ fn check_h2(addr: std::net::SocketAddr, rt: &tokio::runtime::Runtime, b: &Batch,
                     let mut i = 0;
                     while pos < b.len() {
                         let n = if sizes.is_empty() { b.len() } else { sizes[i % sizes.len()].max(1) }.min(b.len() - pos);
+                        if w.parts.empty_frames && i % 2 == 0 {
+                            frames.push(Ok(hyper::body::Frame::data(bytes::Bytes::new())));
+                        }
                         frames.push(Ok::<_, std::convert::Infallible>(hyper::body::Frame::data(bytes::Bytes::copy_from_slice(&b[pos..pos + n]))));
                         pos += n;
                         i += 1;
@@ -932,6 +965,9 @@ fn check_h2(addr: std::net::SocketAddr, rt: &tokio::runtime::Runtime, b: &Batch,
             st.count(&format!("kind:{}", w.op));
             if w.parts.frames.is_some() && w.parts.body.as_ref().map(|b| !b.is_empty()).unwrap_or(false) {
                 st.count("body_without_declared_length");
+                if w.parts.empty_frames {
+                    st.count("body_with_empty_data_frames");
+                }
             }
             if needs_encoding(r) || wires.len() >= 4 {
                 st.nontrivial(hash_of(&format!("h2{:?}", r)));
@@ -1096,7 +1132,7 @@ pub fn batch_strategy(max_clients: usize) -> impl Strategy<Value = Batch> {
 }
 
 pub fn run(ctx: &mut Ctx) {
-    ctx.rule = "batches of 1-16 (thorough 1-64) concurrent clients, each sending 1-5 requests (keep-alive or pipelined) to typed echo endpoints: path (string/u32/uuid/enum/i64/bool), wildcard (of strings, of enum values, of UUIDs), first-page parameters of a paginated endpoint (same field types as the query endpoint, plus limit), query (all scalar widths, char, f64, options, enum, default), JSON body (nested/recursive/tagged enum/map/options), urlencoded body, multipart, raw and streaming bodies; every value encoded with style choices (percent-encoding eagerness and hex case, '+' vs %20, key order, JSON escapes/whitespace, null vs absent, content-type spelling, content-length vs chunked with extensions/trailers, TCP split points). Oracle: echoed JSON of what the handler received == what was encoded; method/URI/header tag/peer address/request id belong to this request. non-trivial = value needing encoding (reserved, non-ASCII, empty, extreme) or chunked framing or a batch with >=4 concurrent peers; distinct by request. Phase h2_multiplexed sends a whole batch as concurrent streams of one HTTP/2 connection (bodies with a declared length or as DATA frames of generated sizes); phase https_interleaved_handshakes interleaves the TCP connect / TLS handshake / request steps of 2-5 clients".into();
+    ctx.rule = "batches of 1-16 (thorough 1-64) concurrent clients, each sending 1-5 requests (keep-alive or pipelined) to typed echo endpoints: path (string/u32/uuid/enum/i64/bool), wildcard (of strings, of enum values, of UUIDs), first-page parameters of a paginated endpoint (same field types as the query endpoint, plus limit), query (all scalar widths, char, f64, options, enum, default), JSON body (nested/recursive/tagged enum/map/options), urlencoded body, multipart, raw and streaming bodies; every value encoded with style choices (percent-encoding eagerness and hex case, '+' vs %20, key order, JSON escapes/whitespace, null vs absent, content-type spelling, content-length vs chunked with extensions/trailers, TCP split points). Oracle: echoed JSON of what the handler received == what was encoded; method/URI/header tag/peer address/request id belong to this request. non-trivial = value needing encoding (reserved, non-ASCII, empty, extreme) or chunked framing or a batch with >=4 concurrent peers; distinct by request. Phase h2_multiplexed sends a whole batch as concurrent streams of one HTTP/2 connection (bodies with a declared length or as DATA frames of generated sizes, optionally interleaved with zero-length DATA frames); phase https_interleaved_handshakes interleaves the TCP connect / TLS handshake / request steps of 2-5 clients".into();
     ctx.assume("floats in JSON bodies are restricted to values serde_json's fast path parses exactly; non-finite floats are not sent");
     ctx.assume("thread interleavings on the server are not controlled; only schedule-independent equalities are asserted");
     let rt = tokio::runtime::Builder::new_multi_thread().worker_threads(4).enable_all().build().unwrap();
@@ -1120,6 +1156,7 @@ pub fn run(ctx: &mut Ctx) {
     ctx.phase("h2_multiplexed", n, batch_strategy(6), |b, st| check_h2(addr1, &rt, b, st));
     ctx.require_frac("h2_multiplexed", "connections_4plus_streams", "connections", 0.4);
     ctx.require_frac("h2_multiplexed", "body_without_declared_length", "connections", 0.3);
+    ctx.require_frac("h2_multiplexed", "body_with_empty_data_frames", "connections", 0.15);
     // many small multipart bodies as concurrent streams, against several servers at once (each with its
     // own runtimes) so that worker threads are preempted at odd moments: the body of a stream then
     // sometimes arrives in full between two consecutive polls of its handler (D11)
